@@ -204,7 +204,10 @@ impl Parser {
                 assert_eq!(arguments.as_rule(), Rule::function_arguments);
 
                 let mut allow_self_type = Cow::Borrowed(lhs_ty);
-                let mut assume_self_is_on_top = true;
+                // only methods (and built-in methods) take the receiver as `self`; a field that
+                // holds an ordinary function value is called with its own arguments only.
+                let mut assume_self_is_on_top =
+                    function_type.is_associated_fn() || !matches!(lhs_ty, TypeLayout::Class(_));
 
                 if let TypeLayout::Module(module_type) = lhs_ty {
                     if let Some(ident) = module_type.get_property(&ident_str) {
